@@ -350,11 +350,24 @@ class Hist:
         tmpl.create_ent('info_target', targetname='t', origin='0 0 0')
         be = tmpl.create_ent('func_brush', targetname='b')
         be.solids.append(tmpl.make_prism(Vec(0, 0, 0), Vec(4, 4, 4)).solid)
+        from srctools.vmf import VisGroup
+        # visgroups in the template (IDs that collide with the target's) and the three visgroup modes of collapse_one
+        tv = VisGroup(tmpl, 'tv', rng.choice((-1, 1, 3)))
+        tv.child_groups.append(VisGroup(tmpl, 'child', rng.choice((-1, 2))))
+        tmpl.vis_tree.append(tv)
+        be.visgroup_ids.add(tv.id)
+        tmpl.create_ent('info_node', nodeid=rng.choice((1, 2, 5)), origin='1 1 1')
         inst_ent = vmf.create_ent('func_instance', targetname='inst', origin='64 0 0', angles='0 90 0', file='x.vmf')
         inst = instancing.Instance.from_entity(inst_ent)
         ifile = instancing.InstanceFile(tmpl)
         for _ in range(rng.randint(1, 2)):
-            instancing.collapse_one(vmf, inst, ifile)
+            mode = rng.choice((False, True, 'group'))
+            if mode == 'group':
+                holder = VisGroup(vmf, 'holder')
+                vmf.vis_tree.append(holder)
+                instancing.collapse_one(vmf, inst, ifile, visgroup=holder)
+            else:
+                instancing.collapse_one(vmf, inst, ifile, visgroup=mode)
         self.log.append(f'collapse map{mi} template collapsed into the map')
         self.nontrivial = self.nontrivial or self.released
 
